@@ -93,7 +93,11 @@ func updateLiquidityRewards(context vm_context.AccountVmContext) ([]*nom.Account
 	result := make([]*nom.AccountBlock, 0)
 
 	for {
-		if err := checkAndPerformUpdateEpoch(context, lastEpoch); err == constants.ErrEpochUpdateTooRecent || len(result) >= constants.MaxEpochsPerUpdate {
+		// stop before moving the epoch cursor, otherwise the epoch just closed gets no reward
+		if len(result) >= constants.MaxEpochsPerUpdate {
+			return result, nil
+		}
+		if err := checkAndPerformUpdateEpoch(context, lastEpoch); err == constants.ErrEpochUpdateTooRecent {
 			liquidityLog.Debug("invalid update - rewards not due yet", "epoch", lastEpoch.LastEpoch+1)
 			return result, nil
 		} else if err != nil {
